@@ -21,6 +21,23 @@ struct FamResult {
 }
 
 fn explore(case: &Case, sib: &Case, other: &Case, depth: usize, seed: u64) -> Option<FamResult> {
+    // the deep exploration on one word sequence, then a shallower one on many sequences (a hidden dependence between
+    // two objects typically needs particular words to make a difference)
+    let mut r = explore_one(case, sib, other, depth, seed)?;
+    let extra = if depth >= 5 { 96 } else { 32 };
+    for k in 0..extra {
+        if let Some(r2) = explore_one(case, sib, other, 3, seed.wrapping_mul(1000003).wrapping_add(k + 1)) {
+            r.sequences += r2.sequences;
+            r.calls += r2.calls;
+            r.states += r2.states;
+            r.distinct_results += r2.distinct_results;
+            if r.viol.len() < 4 { r.viol.extend(r2.viol); }
+        }
+    }
+    Some(r)
+}
+
+fn explore_one(case: &Case, sib: &Case, other: &Case, depth: usize, seed: u64) -> Option<FamResult> {
     let a = (case.build)()?;
     let a2 = a.clone_box();
     let b = (case.build)()?;
